@@ -131,6 +131,13 @@ def ref_decode_checked(tok: str, body: bytes, mutated: bool):
     s1, r1, m1 = R.ref_decode(tok, body, 1)
     if s1 != status:
         return "grey", r1 if len(r1) >= len(ref) else ref, members
+    if status == "corrupt" and tok != "identity":
+        # output produced in the same step as the failure is lost with the exception: step the output as well
+        s2, r2, m2 = R.ref_decode_fine(tok, body)
+        if s2 != status:
+            return "grey", r2 if len(r2) >= len(r1) else r1, members
+        if len(r2) >= len(r1):
+            r1 = r2
     return status, r1, m1
 
 
@@ -215,6 +222,7 @@ class Consumed:
         self.ref = ref_exp
         self.n = 0  # bytes delivered
         self.ok_prefix = True  # everything delivered so far matches the reference at its offset
+        self.prefix_of_longer = False
         self.first_bad = None
         self.outcome = None  # "eof" | "error:<Type>"
         self.exc_repr = None
@@ -233,6 +241,9 @@ class Consumed:
             if self.ok_prefix and not self.ref.matches(self.n, chunk):
                 self.ok_prefix = False
                 self.first_bad = self.n
+                # does the delivery agree with the reference on the part the reference has?
+                common = max(0, min(len(chunk), self.ref.n - self.n))
+                self.prefix_of_longer = self.ref.matches(self.n, chunk[:common]) if common else self.n >= self.ref.n
             if len(self.keep) < 64:
                 self.keep += chunk[:64]
             self.n += len(chunk)
@@ -491,6 +502,7 @@ def run_client(case: dict, pre=None):
                 state["status"] = r.status
                 state["proto"] = r.connection.protocol if r.connection is not None else None
                 mon.reader = r.content
+                state["reader_type"] = type(r.content).__name__
                 await consume(r.content, case["consumer"], c)
                 state["exc_on_content"] = r.content.exception()
                 state["is_eof"] = r.content.is_eof()
@@ -510,6 +522,7 @@ def run_client(case: dict, pre=None):
         "iters": lp.iteration,
         "budget": it_budget,
         "resp": state["resp"],
+        "reader_type": state.get("reader_type"),
         "stuck": None,
         "task_exc": None,
         "escaped": [],
@@ -592,6 +605,7 @@ def run_server(case: dict):
     async def handler(request):
         obs["entered"] = True
         mon.reader = request.content
+        obs["reader_type"] = type(request.content).__name__
         try:
             if hk == "read":
                 c.request(cms if cms else None)  # read() raises the reader's chunk size to client_max_size
@@ -686,6 +700,7 @@ def run_server(case: dict):
         "iters": lp.iteration,
         "budget": it_budget,
         "obs": obs,
+        "reader_type": obs.get("reader_type"),
         "part_content": part_content,
         "stuck": None,
         "http_status": None,
@@ -772,6 +787,11 @@ def judge_transparency(case, res, rec, side):
     if status == "grey":
         rec.count("grey:reference-one-shot-and-streaming-disagree:" + tok)
         return v
+    if not c.ok_prefix and tok == "br" and status == "corrupt" and c.first_bad is not None and c.n > ref.n and c.prefix_of_longer:
+        # brotli's output cannot be stepped below its 32 KiB block, the reference prefix is not maximal: what was
+        # delivered agrees with the reference on the common part and ends in an error (checked below)
+        rec.count("grey:brotli-reference-prefix-not-maximal")
+        c.ok_prefix = True
     if not c.ok_prefix:
         v.append((f"{lvl}:delivered-bytes-differ-from-reference:{tok}", f"first differing delivery at decoded offset {c.first_bad}; delivered {c.n} ref {ref.n} status {status}"))
         return v
@@ -828,6 +848,10 @@ def judge_progress(case, res, rec, side):
     v = []
     c: Consumed = res["consumed"]
     st = res["run"]
+    if res.get("reader_type") == "EmptyStreamReader" and (c.ops_exceeded or st == "budget"):
+        # classifier: the consumer was iterating the shared EMPTY_PAYLOAD object and never saw the end marker
+        v.append((f"{side}:progress:chunk-iteration-on-empty-payload-never-ends", f"{c.ops} consumer operations on an empty body ({res['reader_type']}), run={st}, outcome {c.outcome}"))
+        return v
     if st == "until":
         if c.ops_exceeded:
             v.append((f"{side}:progress:consumer-ops-over-budget", f"{c.ops} consumer operations for wire {res['wire_len']} + decoded {res['ref'].n}; delivered {c.n}"))
@@ -951,10 +975,22 @@ def judge_server(case, res, rec):
     return v
 
 
+def _uses_readchunk(case) -> bool:
+    sc = case.get("consumer") or {}
+    if sc.get("mode") == "iter_chunks":
+        return True
+    return any(op[0] == "readchunk" for op in sc.get("ops", []))
+
+
 def execute(case: dict, rec, ctx: str = ""):
     """Run one case, judge it, record everything.  Returns (violations, res)."""
     side = case["side"]
     res = run_client(case) if side == "client" else run_server(case)
+    if res.get("reader_type") == "EmptyStreamReader" and _uses_readchunk(case) and not case.get("_second"):
+        # empty bodies are all served by one shared object (streams.EMPTY_PAYLOAD): the second consumption in a
+        # process is the general case, the first one is special.  Judge the second.
+        rec.count("empty-payload-second-consumption")
+        res = run_client(case) if side == "client" else run_server(case)
     c: Consumed = res["consumed"]
     mon: Resident = res["mon"]
     entered = res["resp"] if side == "client" else res["obs"]["entered"]
@@ -1253,6 +1289,49 @@ def shards(tier, seed):
     return out
 
 
+EMPTY_CONSUMERS = (
+    {"mode": "readall"},
+    {"mode": "iter_chunked", "n": 100, "sleep": 0},
+    {"mode": "iter_any", "sleep": 0},
+    {"mode": "iter_chunks", "sleep": 0.01, "sleep_every": 1},
+    {"ops": [["read", 10]]},
+    {"ops": [["readany"]]},
+    {"ops": [["readchunk"], ["sleep", 0.01]]},
+    {"ops": [["readexactly", 1]]},
+)
+
+
+def run_empty_bodies(rec, sides=("client", "server")):
+    """Zero-length coded bodies: every coding x framing x consumer kind, on both sides (finite, enumerated)."""
+    for side in sides:
+        for codec in ("gzip", "deflate", "br", "zstd", "identity"):
+            for framing in ("cl", "chunked", "close"):
+                if side == "server" and framing == "close":
+                    continue
+                if codec == "identity" and framing != "chunked":
+                    continue
+                for cons in EMPTY_CONSUMERS:
+                    case = {
+                        "side": side,
+                        "codec": codec,
+                        "plain": {"kind": "zeros", "n": 0, "seed": 0},
+                        "framing": framing,
+                        "limit": 4096,
+                        "cseed": 1,
+                        "seg": {"mode": "whole", "maxseg": MAXSEG},
+                        "consumer": cons,
+                    }
+                    if codec != "identity":
+                        case["mut"] = {"kind": "trunc", "at": 0}
+                    if framing == "chunked":
+                        case["chunks"] = {"kind": "whole"}
+                    if side == "server":
+                        case["handler"] = "iter"
+                        case["cms"] = 1024
+                    execute(case, rec, "empty-body")
+    rec.set_exhaustive("zero-length-body: coding x framing x consumer kind", True)
+
+
 def shard_rng(spec):
     return random.Random(spec["seed"] * 1000003 + spec["sub"] * 7919 + 17)
 
@@ -1261,6 +1340,8 @@ def run_shard(spec, rec):
     rng = shard_rng(spec)
     kind = spec["kind"]
     if kind == "client-valid":
+        if spec["sub"] == 0:
+            run_empty_bodies(rec)
         for i in range(spec["n"]):
             case = gen_client_case(rng, "mixed")
             v, res = execute(case, rec, "client-valid")
